@@ -180,24 +180,52 @@ impl Check for C10 {
         "exploration"
     }
     fn rule(&self) -> String {
-        "Generated: 1..3 collection-rooted model documents (empty collections; first keys that are empty, numeric-looking, quoted, non-ASCII, or start with a byte in 0x80..0xDF once encoded) written in source format A and translated by xt to F; the output y is then fed back with no format named, from a slice and from a drawn reader schedule, for all 4 targets X. Oracle: the hook reports detect(y) == F, and xt(None->X)(y) equals xt(F->X)(y) in verdict, bytes and error text. For F = TOML the statement's precondition is evaluated by harness predicates that do not use xt (own JSON reader finds no value at offset 0; libyaml events show no collection as first document); cases failing it are counted 'toml_precondition_excluded' and only checked for totality. One evaluation = one (y, F, X, mode); every counted case is non-trivial (a real xt output fed back); distinct by hash.".into()
+        "Generated: 1..3 collection-rooted model documents (empty collections; first keys that are empty, numeric-looking, quoted, non-ASCII, or start with a byte in 0x80..0xDF once encoded) written in source format A and translated by xt to F (unit 'sizes': maps and arrays of 0, 1, 15, 16, 17, 255, 256, 65535 and 65536 entries, i.e. every header width the writers use); the output y is then fed back with no format named, from a slice and from a drawn reader schedule, for all 4 targets X. Oracle: the hook reports detect(y) == F, and xt(None->X)(y) equals xt(F->X)(y) in verdict, bytes and error text. For F = TOML the statement's precondition is evaluated by harness predicates that do not use xt (own JSON reader finds no value at offset 0; libyaml events show no collection as first document); cases failing it are counted 'toml_precondition_excluded' and only checked for totality. One evaluation = one (y, F, X, mode); every counted case is non-trivial (a real xt output fed back); distinct by hash.".into()
     }
     fn assumptions(&self) -> Vec<String> {
         vec!["known findings K4/K6 (C09) license differences between failing detected and explicit reader runs".into()]
     }
     fn units(&self, tier: Tier) -> Vec<Unit> {
-        vec![Unit::gen("gen", 16, tier.pick(20_000, 150_000))]
+        vec![Unit::gen("gen", 16, tier.pick(20_000, 150_000)), Unit::enumerate("sizes", 10)]
     }
     fn required_classes(&self, _tier: Tier) -> Vec<&'static str> {
-        vec!["output:json", "output:msgpack", "output:yaml", "output:toml", "toml_precondition_holds", "toml_precondition_excluded", "docs:1", "docs:3", "mode:slice", "mode:bytewise"]
+        vec!["output:json", "output:msgpack", "output:yaml", "output:toml", "toml_precondition_holds", "toml_precondition_excluded", "docs:1", "docs:3", "mode:slice", "mode:bytewise", "sizes:65536", "sizes:0"]
     }
     fn extra_coverage(&self, _tier: Tier) -> J {
         json!({})
     }
-    fn run_unit(&self, unit: &Unit, _shard: u32, seed: u64, _tier: Tier, rec: &mut Recorder) {
+    fn run_unit(&self, unit: &Unit, shard: u32, seed: u64, _tier: Tier, rec: &mut Recorder) {
+        if unit.name == "sizes" {
+            // collections at every header-width boundary of the writers
+            let mut n = 0u32;
+            for count in [0usize, 1, 15, 16, 17, 255, 256, 65535, 65536] {
+                for is_map in [false, true] {
+                    n += 1;
+                    if n % unit.shards != shard {
+                        continue;
+                    }
+                    let doc = if is_map { Val::Map((0..count).map(|i| (Val::Str(format!("k{}", i)), Val::Int(i as i128))).collect()) } else { Val::Seq((0..count).map(|i| Val::Int(i as i128)).collect()) };
+                    for f in FORMATS {
+                        let c = Case { docs: vec![doc.clone()], a: Fmt::Msgpack, f, style: Style::canonical(), mode: Mode::Reader(crate::sio::Sched::Fixed(4096)) };
+                        rec.class(&format!("sizes:{}", count));
+                        if let Err(m) = check_case(&c, rec) {
+                            rec.fail(format!("{} with {} entries: {}", if is_map { "map" } else { "array" }, count, m), json!({"unit": "sizes", "count": count, "map": is_map, "f": f.name()}));
+                            return;
+                        }
+                    }
+                }
+            }
+            return;
+        }
         run_prop(rec, seed, unit.cases, case_strategy(), |c| c.to_json("gen"), check_case);
     }
     fn replay(&self, case: &J) -> Result<(), String> {
+        if case["unit"].as_str() == Some("sizes") {
+            let count = case["count"].as_u64().ok_or("no count")? as usize;
+            let doc = if case["map"].as_bool().unwrap_or(false) { Val::Map((0..count).map(|i| (Val::Str(format!("k{}", i)), Val::Int(i as i128))).collect()) } else { Val::Seq((0..count).map(|i| Val::Int(i as i128)).collect()) };
+            let c = Case { docs: vec![doc], a: Fmt::Msgpack, f: Fmt::from_name(case["f"].as_str().ok_or("no f")?).ok_or("bad f")?, style: Style::canonical(), mode: Mode::Reader(crate::sio::Sched::Fixed(4096)) };
+            return check_case(&c, &mut Recorder::default());
+        }
         check_case(&Case::from_json(case).ok_or("bad case")?, &mut Recorder::default())
     }
     fn confirm_known(&self, k: &Known) -> bool {
